@@ -570,7 +570,8 @@ class Block:
         """Given a dictionary for an experiment that maps all non-implied factors to their levels,
         adds level values for implied factors"""
         n = len(list(results.values())[0])
-        for f in self.design:
+        # An implied factor can depend on an implied factor that is listed later in the design
+        for f in sorted(self.design, key=lambda f: f._get_depth()):
             if f not in self.act_design:
                 sustain_count = self.sustain_count(f)
                 vals = []
@@ -599,6 +600,10 @@ class Block:
                     else:
                         vals.append("")
                 results[f.name] = vals
+        # List the implied factors in design order
+        for f in self.design:
+            if f not in self.act_design:
+                results[f.name] = results.pop(f.name)
         return results
 
     @abstractmethod    
